@@ -1,5 +1,7 @@
 use std::fmt::Debug;
 use std::hash::Hash;
+use std::sync::atomic::{AtomicBool, Ordering};
+use std::sync::Arc;
 use tracing::debug;
 use tracing::{info, instrument};
 
@@ -31,6 +33,11 @@ where
 
     /// The maximum size for goals.
     max_size: usize,
+
+    /// Set once `should_continue` has returned `false` during the current root
+    /// solve. Results computed from then on may have been cut short, so they
+    /// must not be promoted to the cache.
+    interrupted: Arc<AtomicBool>,
 }
 
 pub(super) trait SolverStuff<K, V>: Copy
@@ -81,6 +88,7 @@ where
             search_graph: SearchGraph::new(),
             cache,
             max_size,
+            interrupted: Arc::new(AtomicBool::new(false)),
         }
     }
 
@@ -115,6 +123,15 @@ where
         // discard it so that this solve starts from a clean slate.
         self.stack.clear();
         self.search_graph.clear();
+        self.interrupted.store(false, Ordering::Relaxed);
+        let interrupted = self.interrupted.clone();
+        let should_continue = move || {
+            let proceed = should_continue();
+            if !proceed {
+                interrupted.store(true, Ordering::Relaxed);
+            }
+            proceed
+        };
         let minimums = &mut Minimums::new();
         self.solve_goal(canonical_goal, minimums, solver_stuff, should_continue)
     }
@@ -187,14 +204,18 @@ where
             // cache now. This is a sort of hack to alleviate the
             // worst of the repeated work that we do during tabling.
             if subgoal_minimums.positive >= dfn {
-                if let Some(cache) = &mut self.cache {
-                    self.search_graph.move_to_cache(dfn, cache);
-                    debug!("solve_reduced_goal: SCC head encountered, moving to cache");
-                } else {
-                    debug!(
-                        "solve_reduced_goal: SCC head encountered, rolling back as caching disabled"
-                    );
-                    self.search_graph.rollback_to(dfn);
+                let interrupted = self.interrupted.load(Ordering::Relaxed);
+                match &mut self.cache {
+                    Some(cache) if !interrupted => {
+                        self.search_graph.move_to_cache(dfn, cache);
+                        debug!("solve_reduced_goal: SCC head encountered, moving to cache");
+                    }
+                    _ => {
+                        debug!(
+                            "solve_reduced_goal: SCC head encountered, rolling back as caching disabled or solve interrupted"
+                        );
+                        self.search_graph.rollback_to(dfn);
+                    }
                 }
             }
 
